@@ -353,6 +353,47 @@ theorem ant_constructor :
   · simp [antNew, Gen.antParams]; norm_num
   · simp [antNew, Gen.antParams]; norm_num
 
+/-! ## robustness classes (logical value only · rejected calls · long-lived objects) -/
+
+/-- R1 / R2 (element type, shape, memory layout): an array query is a function
+    of the LOGICAL values only and is positional — entry `i` of the result is
+    the clamped deterministic loss of entry `i` of the argument, i.e. what the
+    scalar query of that value returns; nothing depends on how the values are
+    stored. (The harness hands the code the same logical values as int / float32
+    / Fortran / strided / broadcast / N-d objects and compares positionally.) -/
+theorem array_query_positional (small : Bool) (f : ℝ → ℝ) (ds xs : List ℝ)
+    (h : arrayDb small f ds = .ok xs) :
+    xs.length = ds.length ∧ ∀ i (hi : i < ds.length), xs[i]? = some (clamp (f ds[i])) := by
+  obtain ⟨e, _⟩ := policyArray_ok (show policyArray small (ds.map f) = .ok xs from h)
+  subst e
+  refine ⟨by simp, fun i hi => ?_⟩
+  simp [hi]
+
+/-- R2 (N-d arrays): the clamp policy commutes with reshaping — clamping the
+    flattened array of a list of rows is the row-wise clamp flattened (so a row
+    that mixes a too-small and an admissible distance keeps the admissible
+    entry); and with the flag off ONE negative entry anywhere raises. -/
+theorem clamp_policy_commutes_with_reshape (f : ℝ → ℝ) (rows : List (List ℝ)) :
+    arrayDb true f rows.flatten
+      = .ok ((rows.map (fun r => r.map (fun d => clamp (f d)))).flatten) ∧
+    ((∃ r ∈ rows, ∃ d ∈ r, f d < 0) → arrayDb false f rows.flatten = .error .RuntimeError) := by
+  constructor
+  · unfold arrayDb
+    rw [policyArray_clamps, List.map_map, List.map_flatten]
+    rfl
+  · rintro ⟨r, hr, d, hd, hneg⟩
+    exact policyArray_raises ⟨f d, List.mem_map.2 ⟨d, List.mem_flatten.2 ⟨r, hr, hd⟩, rfl⟩, hneg⟩
+
+/-- R4 / R7 (rejected calls, long-lived objects): a rejected Okumura–Hata
+    setter call can be deleted from any history without changing the final
+    object — the object behaves as if the call had never been made. (Queries
+    are functions of the state in the model: they cannot change it.) -/
+theorem oh_rejected_call_can_be_dropped (s : OhState ℝ) (o : OhOp ℝ) (e : PyErr)
+    (h : (ohStep s o).2 = some e) (rest : List (OhOp ℝ)) :
+    ohRun s (o :: rest) = ohRun s rest := by
+  have := (ohStep_rejected s o e h).2
+  simp only [ohRun, List.foldl_cons, this]
+
 /-! ## non-vacuity -/
 
 /-- the hypotheses of the theorems above are met by concrete non-trivial objects -/
